@@ -539,3 +539,67 @@ def work(job):
         G.LFRIC_TESTING = False
         os.unlink(fname)
     return out
+
+
+# ------------------------------------------------- repository example files
+def example_files(api):
+    d = lfric_dir() if api == "lfric" else gocean_dir()
+    return [os.path.join(d, f) for f in sorted(os.listdir(d))
+            if f.endswith(".f90") and not f.endswith("_mod.f90")]
+
+
+def work_example(job):
+    '''job = (algorithm file of the repository, api, dm).  Only the clauses
+    about the two lists and the names are decidable here (kernel-argument
+    provenance of arbitrary kernels is not traced): kargs = [], orig = actuals.'''
+    fname, api, dm = job
+    core.setup_psyclone_env()
+    import psyclone.generator as G
+    out = {"file": os.path.basename(fname), "api": api, "paths": {}}
+    if api == "lfric":
+        kdir, apiname = lfric_dir(), "dynamo0.3"
+        paths = [("alg", False), ("psyir", True)]
+    else:
+        kdir, apiname = gocean_dir(), "gocean1.0"
+        paths = [("psyir", False)]
+    try:
+        with open(fname, errors="replace") as f:
+            own = {c[0].lower() for c in itemise_alg(f.read())}
+    except (Unsupported, OSError):
+        own = None
+    for pname, flag in paths:
+        G.LFRIC_TESTING = flag
+        try:
+            alg, psy = G.generate(fname, api=apiname, kernel_paths=[kdir],
+                                  distributed_memory=dm)
+            alg_text, psy_text = str(alg), str(psy)
+        except BaseException as err:    # noqa  (negative test inputs, exits)
+            if isinstance(err, KeyboardInterrupt):
+                raise
+            out["paths"][pname] = ("refused", type(err).__name__)
+            continue
+        finally:
+            G.LFRIC_TESTING = False
+        try:
+            if own is None:
+                raise Unsupported("source calls not itemisable")
+            calls = [c for c in itemise_alg(alg_text)
+                     if c[0].lower() not in own - {"invoke"}]
+            subs = split_subroutines(psy_text)
+            if len(calls) != len(subs):
+                raise Unsupported("%d generated calls for %d PSy routines"
+                                  % (len(calls), len(subs)))
+        except Unsupported as err:
+            out["paths"][pname] = ("ok", [("unsupported", str(err))])
+            continue
+        res = []
+        for i, (cname, actuals) in enumerate(calls):
+            match = [s for s in subs if canon(s[0]) == canon(cname)]
+            sub = match[0] if len(match) == 1 else subs[i]
+            res.append(("case", {
+                "call": enc(cname), "acts": [enc(a) for a in actuals],
+                "subs": [enc(s[0]) for s in subs],
+                "dums": [enc(d) for d in sub[1]],
+                "kargs": [], "orig": [[enc(a) for a in actuals]]}))
+        out["paths"][pname] = ("ok", res)
+    return out
